@@ -245,7 +245,8 @@ def write_xlsx(desc, dirpath, sheet_order=None):
                             for r in range(r1, r2 + 1):
                                 a2 = '%s%d' % (col_name(c), r)
                                 if a2 != addr and a2 not in sh['cells']:
-                                    ws[a2] = 987.0
+                                    # numbers, error values and text alike
+                                    ws[a2] = (987.0, '#N/A', 'stale', '#DIV/0!')[(c + r) % 4]
                 elif 'f' in cell:
                     ws[addr] = '=' + formula_text(desc, cell['f'], (b, s))
                 else:
